@@ -1,4 +1,6 @@
 SPECIFICATION TSpec
+CONSTANTS
+  Tombstones = TRUE
 INVARIANTS
   RestDomain
   NoSelfInfo
